@@ -156,6 +156,27 @@ func c02(r *Report) {
 	})
 
 	r.Guard("C02.R3", "context lifecycle: link/unlink paired, fresh context per exchange, one session per connection, ctxs guarded by ctxmu", func() {
+		// the session of a connection is made for it: newSession returns a struct it has
+		// just allocated, never an object that served another connection
+		if ns := r.Use("", "newSession"); ns != nil {
+			fresh := true
+			n := 0
+			for _, ret := range returns(ns) {
+				for _, v := range retVals(ret, 0) {
+					for _, l := range resolveAll(v) {
+						if isNilConst(l) {
+							continue
+						}
+						n++
+						if a, ok := l.(*ssa.Alloc); !ok || a.Parent() != ns {
+							fresh = false
+						}
+					}
+				}
+			}
+			r.Decide("flow", "M.newSession returns a freshly allocated Session", fresh && n > 0, "every non-nil result is a composite literal of this call", "a session can be an object taken from a pool / free list: state left by the connection it served before (hijacked, values) is visible to the new connection", ns.Pos())
+		}
+
 		// link followed by defer unlink on the same request
 		links := calls(handle, "M.link")
 		if len(links) != 1 {
@@ -399,6 +420,8 @@ func c02(r *Report) {
 	})
 
 	r.Guard("C02.R6", "after a hijack the proxy stops serving the connection: hijack returns terminate the connection loop", func() {
+		flagRules(r, "Session", "Hijack", "Hijacked")
+
 		// every modifier call is followed by a Hijacked() test before the proxy touches the connection again
 		for _, f := range []*ssa.Function{handle, hcr} {
 			g := G(f)
